@@ -362,7 +362,7 @@ Proof.
         - apply IH. apply NDC_upd_worker; [ndc|].
           eapply worker_ok_some; [reflexivity | reflexivity | exact Htok]. }
     all: match goal with |- context [if ?b then _ else _] => destruct b end; [cbn [fst]; exact H1|];
-         match goal with |- context [if ?b then _ else _] => destruct b end; cbn [fst]; ndc.
+         match goal with |- context [if ?b then _ else _] => destruct b end; [cbn [fst]; ndc | apply IH; apply NDC_set_clockp; ndc].
 Qed.
 
 Lemma wpool_nth0 x w : ND x -> nth w (pw_wpool x) 0%nat = 0%nat.
